@@ -68,12 +68,14 @@ def thread_roots(ctx, cls):
                 out |= roots(f.enclosing.name, seen)
             else:
                 role = cg.lambda_role.get(f.name, {})
-                out.add("λ[%s %s]@%s" % (role.get("role"), last(role.get("callee") or role.get("field") or ""), short(f.enclosing.name if f.enclosing else "?")))
+                out.add(("λ[%s %s]@%s" % (role.get("role"), last(role.get("callee") or role.get("field") or ""), short(f.enclosing.name if f.enclosing else "?"))).replace(" ]", "]"))
             cache[name] = out
             return out
         callers = {g.name for (g, e, n) in cg.callers.get(name, [])}
-        if f is not None and f.access == "public" and f.kind in ("method", "function"):
-            out.add(short(name))
+        if f is not None and f.access == "public" and f.kind in ("method", "function") and f.cls == cls:
+            # the engine's public API is where foreign threads enter: a root, and the climb stops here
+            cache[name] = {short(name)}
+            return cache[name]
         if f is not None and f.kind in ("ctor", "dtor"):
             out.add(short(name))
         if not callers and not out:
@@ -91,7 +93,9 @@ def thread_roots(ctx, cls):
 
 def io_confined(roots, cls):
     c = last(cls)
-    ok = {"λ[thread <ctor>]@%s::start" % c, "%s::start" % c, "%s::<ctor>" % c, "%s::<dtor>" % c}
+    # start(): before the I/O thread exists; scheduleSelfDestruct/detachForTermination: documented (and asserted) to be
+    # called on the I/O thread only, from the transport's self-destruction path
+    ok = {"λ[thread]@%s::start" % c, "%s::start" % c, "%s::<ctor>" % c, "%s::<dtor>" % c, "%s::scheduleSelfDestruct" % c, "%s::detachForTermination" % c}
     return roots <= ok, roots - ok
 
 
@@ -114,7 +118,9 @@ def r1(ctx, r):
             ok, extra = io_confined(rs or {"?"}, cls)
             return "I/O-thread confined" if ok else None
         for fld in ("_sessions", "_listeners"):
-            common.guarded_by(r, fb, la, cls + "::" + fld, cls + "::_sessionRwMutex", mode_for_write="x", mode_for_read="s", confined=confined, files=file_)
+            common.guarded_by(r, fb, la, cls + "::" + fld, cls + "::_sessionRwMutex", mode_for_write="x", mode_for_read="s", confined=confined, files=file_,
+                              exempt={UDP + "::readFromListener": "`_sessions[sid]` is a lookup: C06-R6 proves every indexed id is in the table, so operator[] never inserts"}
+                              if (cls == UDP and fld == "_sessions") else None)
         # the wake-up write happens under the queue mutex (serialised with the close in shutdownDrain)
         for f in fb.funcs(cls + "::enqueue", FILES[cls]):
             for e in f.stmts():
@@ -204,6 +210,48 @@ def r3(ctx, r):
                     short(f.name), last(m), ",".join(last(x) for x in other)), okdesc="%s takes %s with no other engine lock held" % (short(f.name), last(m)))
     if nacq < 80:
         raise AnalysisBroken("only %d engine/transport lock acquisitions seen" % nacq)
+    # interprocedural: a call made with an engine lock held must not reach another acquisition or a callback
+    cg = ctx.cg()
+    acq, inv = {}, {}
+    scope = [f for f in fb.functions if f.ok and f.file.endswith((FILES[TCP], FILES[UDP], TFILE))]
+    # elements inside catch handlers are left out of the summaries: the only handlers on these paths report allocation
+    # failures of the queue push through onError (DESIGN 1.3 A9: bad_alloc from ordinary growth is out of scope)
+    for f in scope:
+        acq[f.name] = acq.get(f.name, set()) | {m for (e, m) in lock_acquisitions(f, la) if m in ENGINE_LOCKS and not e.catch_id}
+        inv[f.name] = inv.get(f.name, False) or any(not e.catch_id for (e, t) in common.fn_invocations(f))
+    changed = True
+    while changed:
+        changed = False
+        for f in scope:
+            for (e, n, c) in cg.callees_of(f):
+                if e.catch_id:
+                    continue
+                if c in acq and not acq[c] <= acq[f.name]:
+                    acq[f.name] |= acq[c]
+                    changed = True
+                if inv.get(c) and not inv[f.name]:
+                    inv[f.name] = True
+                    changed = True
+    for f in scope:
+        for (e, n, c) in cg.callees_of(f):
+            if c not in acq:
+                continue
+            held = la.mutexes(f, e) & ENGINE_LOCKS
+            if not held:
+                continue
+            r.instance()
+            more = acq[c] - held
+            # documented order (transport_impl.hpp, connectSync): syncMutex → the engine's command-queue mutex, taken by
+            # connect()'s enqueue only; nothing under the queue mutex ever takes syncMutex (checked by the acyclicity test below)
+            if held == {SYNC} and last(c) == "connect" and more <= {TCP + "::_cmdMutex", UDP + "::_qmx"} and not inv.get(c):
+                r.note("%s → %s under syncMutex takes only the command-queue mutex (documented order)" % (short(f.name), short(c)))
+                r.ok()
+                continue
+            r.expect(not more and not inv.get(c), f, e, "call under lock reaches lock/callback",
+                     "%s calls %s while holding %s, and that call %s: the engine/transport locks are leaves" % (
+                         short(f.name), short(c), ",".join(last(x) for x in held),
+                         ("acquires " + ",".join(last(x) for x in more)) if more else "can invoke a user callback"),
+                     okdesc="%s → %s under %s takes no further lock" % (short(f.name), short(c), ",".join(last(x) for x in held)))
     # callbacks outside locks
     scope_files = (FILES[TCP], FILES[UDP], TFILE)
     ninv = 0
@@ -265,7 +313,7 @@ def r4(ctx, r):
     for name, recs in fb.records.items():
         if name == IMPL or name.startswith(IMPL + "::"):
             for fld in recs[0]["fields"]:
-                if fld["t"].startswith("std::condition_variable"):
+                if fld["t"].startswith("std::condition_variable") and not fld["t"].rstrip().endswith("&"):
                     cvs.add(name + "::" + fld["n"])
     r.instance()
     known = {SCO + "::cv", SRB + "::cv", IMPL + "::teardownCv"}
@@ -312,6 +360,29 @@ def r4(ctx, r):
     for (e, n, k) in common.field_writes(fgd, IMPL + "::FlushGuard::activeFlushes") + common.field_writes(fgd, SRB + "::flushing"):
         r.instance()
         r.expect(la.holds(fgd, e, SYNC), fgd, e, "~FlushGuard unlocked", "~FlushGuard updates teardown state without taking the mutex", okdesc="~FlushGuard locks before clearing")
+    # every notify on teardownCv holds syncMutex: once a counter is seen zero under the lock nothing keeps Impl alive, so a
+    # notifier that has released the lock may signal a destroyed condition variable
+    nn = 0
+    for f in fb.in_file(TFILE):
+        if not f.ok:
+            continue
+        for e in f.stmts():
+            n = e.node
+            if n.get("k") == "mcall" and last(n.get("callee", "")) in ("notify_one", "notify_all") and (field_of(n.get("obj")) or "").endswith("::teardownCv"):
+                nn += 1
+                r.instance()
+                r.expect(la.holds(f, e, SYNC), f, e, "teardown notify outside lock", "%s signals teardownCv after releasing syncMutex: the teardown thread can already have seen the counters at zero "
+                         "and destroyed the Impl (and this condition variable)" % short(f.name), okdesc="%s: teardownCv notified under syncMutex" % short(f.name))
+    if nn < 2:
+        raise AnalysisBroken("expected teardownCv notifications in ~ParkGuard and ~FlushGuard, found %d" % nn)
+    # a guard's destructor touches nothing of Impl after its critical section ends
+    for gname in ("FlushGuard",):
+        gd = fb.func(IMPL + "::" + gname + "::<dtor>")
+        for e in gd.stmts():
+            if "root" in e.raw and e.node.get("k") != "decl" and any(x.get("k") == "member" and x["n"].startswith(IMPL + "::" + gname + "::") for x in walk(e.node)):
+                r.instance()
+                r.expect(la.holds(gd, e, SYNC), gd, e, "guard epilogue outside lock", "~%s touches transport state (`%s`) outside its critical section" % (gname, show(e.node)[:60]),
+                         okdesc="~%s: `%s` under the lock" % (gname, show(e.node)[:40]))
     # teardownWaitOut: fence before notify, waits for all three counters
     tw = fb.func(IMPL + "::teardownWaitOut")
     sets = [e for (e, n, k) in common.field_writes(tw, IMPL + "::shuttingDown")]
@@ -503,12 +574,13 @@ def r7(ctx, r):
                 n = e.node
                 if n.get("k") == "mcall" and n.get("callee") in summ:
                     ncalls += 1
-                st = flow.before(e)
-                if not st:
-                    continue
                 if "root" not in e.raw:
                     continue
                 for x in walk(n):
+                    xe = f.elem_for(x)
+                    st = flow.before(xe) if xe is not None else None
+                    if not st:
+                        continue
                     if x.get("k") == "member" and x.get("arrow") and (x.get("b") or {}).get("k") == "var" and x["b"]["n"] in st and x["n"].startswith(cls + "::Session::"):
                         r.instance()
                         r.fail(f, e, "use after free of %s" % x["b"]["n"], "%s dereferences `%s->%s` after a call that may have closed and erased that session (%s) without looking it up again" % (
@@ -533,7 +605,8 @@ def r7(ctx, r):
     r.instance()
     ok = len(rel) == 1 and sched and det and elem_dominates(dt, rel[0], sched[0]) and elem_dominates(dt, sched[0], det[-1])
     if ok:
-        w = search(dt, rel[0], lambda x: x.kind == "stmt" and "root" in x.raw and any(y.get("k") == "member" and y["n"] == TR + "::_impl" for y in walk(x.node)), eh=False)
+        own = dt.root_elem(rel[0].node)
+        w = search(dt, rel[0], lambda x: x.kind == "stmt" and "root" in x.raw and x is not own and any(y.get("k") == "member" and y["n"] == TR + "::_impl" for y in walk(x.node)), eh=False)
         ok = w is None
     r.expect(ok, dt, rel[0] if rel else None, "self-destruct order", "~Transport's I/O-thread branch does not release _impl, schedule the deferred delete, detach — in that order, touching _impl no more",
              okdesc="~Transport: release → scheduleSelfDestruct → detach, nothing after")
